@@ -518,7 +518,7 @@ fn glist_paths(ps: &[String]) -> String {
 
 pub fn main(a: &Args) {
     std::fs::create_dir_all(&a.out).unwrap();
-    let (n_ufos, masks): (u64, Vec<u32>) = if a.thorough() { (400, (0..64).collect()) } else { (8, (0..64).collect()) };
+    let (n_ufos, masks): (u64, Vec<u32>) = if a.thorough() { (120, (0..64).collect()) } else { (8, (0..64).collect()) };
     let replay: Option<(u64, u64)> = a.replay.as_ref().map(|rp| {
         let t = std::fs::read_to_string(rp).unwrap();
         let w: Vec<u64> = t.split_whitespace().map(|x| x.parse().unwrap()).collect();
@@ -528,6 +528,7 @@ pub fn main(a: &Args) {
     let mut cases = String::new();
     let mut json = String::new();
     let mut case_no = 0u64;
+    let mut row_no = 0u64;
     for ui in 0..n_ufos {
         let mut r = Rng::new(a.seed.wrapping_mul(0x9E37_79B9_7F4A_7C15) ^ ui.wrapping_mul(0xD1B5_4A32_D192_ED03) ^ 0x1717);
         // most UFOs are fully valid (the theorem's premise); some have invalid parts
@@ -598,17 +599,33 @@ pub fn main(a: &Args) {
                         }
                     }
                 }
-                let _ = writeln!(cases, "LCase m{} {} [] [] {}", ui, greq(&q), g1);
-                let _ = writeln!(cases, "LCase m{} {} {} {} {}", ui, greq(&q), glist_paths(&garbage), glist_paths(&removed), g2);
+                let _ = writeln!(cases, "{}\tpristine\tLCase m{} {} [] [] {}", row_no, ui, greq(&q), g1);
+                let _ = writeln!(cases, "{}\tunrequested-corrupted\tLCase m{} {} {} {} {}", row_no, ui, greq(&q), glist_paths(&garbage), glist_paths(&removed), g2);
+                // 3. sometimes: one REQUESTED file damaged (model and implementation must fail alike)
+                let mut s3 = String::from("-");
+                if r.chance(1, 3) {
+                    let req_files: Vec<String> =
+                        files(&u).into_iter().filter(|(p, c)| c.is_some() && !un.contains(p)).map(|(p, _)| p).collect();
+                    if !req_files.is_empty() {
+                        let victim = r.pick(&req_files).clone();
+                        let (gb, rm) = if r.chance(2, 3) { (vec![victim.clone()], vec![]) } else { (vec![], vec![victim.clone()]) };
+                        write_ufo(&root, &u, &gb, &rm);
+                        let (g3, st3, _) = observe(&root, &q);
+                        s3 = format!("{} ({} {})", st3, if rm.is_empty() { "garbage in" } else { "removed" }, victim);
+                        let _ = writeln!(cases, "{}\trequested-damaged\tLCase m{} {} {} {} {}", row_no, ui, greq(&q), glist_paths(&gb), glist_paths(&rm), g3);
+                    }
+                }
+                row_no += 1;
                 let _ = writeln!(
                     json,
-                    "{{\"case\":{},\"ufo\":{},\"mask\":{},\"shape\":{},\"pristine\":{},\"corrupted\":{},\"n_unrequested\":{},\"full_ok\":{},\"oracle_ok\":{},\"why\":{}}}",
+                    "{{\"case\":{},\"ufo\":{},\"mask\":{},\"shape\":{},\"pristine\":{},\"corrupted\":{},\"damaged\":{},\"n_unrequested\":{},\"full_ok\":{},\"oracle_ok\":{},\"why\":{}}}",
                     this,
                     ui,
                     mask,
                     json_str(shape.shape),
                     json_str(&s1),
                     json_str(&s2),
+                    json_str(&s3),
                     un.len(),
                     full.is_some(),
                     why.is_empty(),
